@@ -4,8 +4,8 @@
       printed that way; the same algorithm on every printed width, EXPECTED TO BE
       REJECTED; the width-preserving repair) and spec/CtiWrap.tla (greedy filling;
       a wrong variant EXPECTED TO BE REJECTED) are checked exhaustively by TLC.
-(S->C) TLC writes the finite case sets (MC_OmkmRange_cases: ~28k identifier
-      collections, MC_CtiWrap_cases: ~19.5k token-length/width cases); each is fed to
+(S->C) TLC writes the finite case sets (MC_OmkmRange_cases: ~25k identifier
+      collections, MC_CtiWrap_cases: ~5.9k token-length/width cases); each is fed to
       the real `_get_omkm_range` / `obj_to_cti`.  TLC's `must` (the collection has to
       be accepted) is compared with what the code did; TLC's greedy reference layout is
       compared with the real layout as evidence only (layout is not demanded).
@@ -404,6 +404,52 @@ def _print_suffix(rnd, n, style):
     raise core.MachineryError(style)
 
 
+# decimal digits of other scripts (str.isdigit() and int() accept them), as code-point offsets
+DIGIT_ZEROS = {'arabic-indic': 0x0660, 'ext-arabic-indic': 0x06F0, 'devanagari': 0x0966,
+               'bengali': 0x09E6, 'thai': 0x0E50, 'fullwidth': 0xFF10}
+# isdigit() is true but int() fails: superscripts, subscripts, circled digits
+PSEUDO_DIGITS = '\u00b2\u00b3\u00b9\u2075\u2082\u2460'
+
+
+def _respell(txt, rnd, script=None, partial=False):
+    z = DIGIT_ZEROS[script or rnd.choice(sorted(DIGIT_ZEROS))]
+    out = []
+    for ch in txt:
+        if ch.isascii() and ch.isdigit() and not (partial and rnd.random() < 0.5):
+            out.append(chr(z + ord(ch) - 48))
+        else:
+            out.append(ch)
+    return ''.join(out)
+
+
+def _odd_id(rnd, ids, delim):
+    """an identifier with a footer that cannot be written back as an ASCII integer of the same
+    spelling; built next to an existing identifier when there is one"""
+    head, num, width = 'r' + delim, rnd.randint(0, 99999), rnd.choice([1, 4, 4, 5])
+    base = [i for i in ids if i and i[-1].isascii() and i[-1].isdigit()]
+    if base and rnd.random() < 0.8:
+        b = rnd.choice(base)
+        k = len(b)
+        while k and b[k - 1].isascii() and b[k - 1].isdigit():
+            k -= 1
+        head, foot = b[:k], b[k:]
+        num = max(0, min(99999, int(foot) + rnd.choice([-1, 0, 1, 1, 2])))
+        width = len(foot)
+    txt = '%0*d' % (width, num)
+    mode = rnd.random()
+    if mode < 0.45:
+        foot = _respell(txt, rnd)                               # whole footer in another script
+    elif mode < 0.6:
+        foot = _respell(txt, rnd, partial=True)                 # ASCII and non-ASCII digits mixed
+        if foot == txt:
+            foot = _respell(txt, rnd)
+    elif mode < 0.7:
+        foot = rnd.choice(PSEUDO_DIGITS) if rnd.random() < 0.5 else txt + rnd.choice(PSEUDO_DIGITS)
+    else:
+        foot = rnd.choice(['+' + txt, ' ' + txt, txt + ' ', '-' + txt, '%de1' % (num % 10), ''])
+    return head + foot
+
+
 def _random_range_case(rnd, cid, canonical_only=False, delim=None):
     if delim is None:
         delim = DELIM if rnd.random() < 0.85 else rnd.choice(['-', '.'])
@@ -425,6 +471,13 @@ def _random_range_case(rnd, cid, canonical_only=False, delim=None):
         ids.append(txt if h is None else '%s%s%s' % (h, delim, txt))
     if not allcanon and n and rnd.random() < 0.08:
         ids.insert(rnd.randrange(len(ids) + 1), rnd.choice(['r%sabc' % delim, 'r%s' % delim, 'abc']))
+        must = False
+    if not canonical_only and rnd.random() < 0.15:
+        # identifiers whose footer cannot be encoded (they may only be rejected or kept as they
+        # are): ASCII oddities and digits of other scripts, alone (n = 0) or next to encodable
+        # identifiers they would merge with if read as numbers
+        for _ in range(rnd.randint(1, 3)):
+            ids.insert(rnd.randrange(len(ids) + 1), _odd_id(rnd, ids, delim))
         must = False
     return {'kind': 'range', 'cid': cid, 'ids': ids, 'delim': delim, 'must': must,
             'calls': rnd.choice(CALL_SETS3)}
@@ -560,6 +613,12 @@ def run(ctx):
         ctx.notes.append('design model rejects the "%%04d" re-printing on identifiers of other widths '
                          'and on the empty prefix: %s violated' % bad.violated)
         ctx.model('MC_OmkmRange', ctx.pick('MC_OmkmRange_keepwidth', 'MC_OmkmRange_keepwidth_big'))
+        bad = ctx.model('MC_OmkmRange', 'MC_OmkmRange_isdigit', expect_ok=False)
+        if bad.ok or bad.violated is None:
+            raise core.MachineryError('the isdigit()+int() footer test should be rejected by the design '
+                                      'model:\n' + bad.out[-2000:])
+        ctx.notes.append('design model rejects accepting footers spelt with digits of other scripts '
+                         '(isdigit()+int()): %s violated' % bad.violated)
         ctx.model('MC_CtiWrap', ctx.pick('MC_CtiWrap', 'MC_CtiWrap_big'))
         bad = ctx.model('MC_CtiWrap', 'MC_CtiWrap_onelimit', expect_ok=False)
         if bad.ok or bad.violated is None:
@@ -630,7 +689,8 @@ def run(ctx):
     ctx.assume('range notation is read numerically: "p_a to p_b" denotes p_n for n in a..b printed at the '
                'width of a (a consumer comparing identifiers lexically agrees only while the width is constant)')
     ctx.assume('tokens are non-empty texts without blanks or double quotes; identifiers contain no '
-               'double quote, bracket, ", " or " to "')
+               'double quote, bracket, ", " or " to "; identifiers are compared as sequences of code points '
+               '(a footer spelt with digits of another script is a different identifier from its ASCII spelling)')
     ctx.assume('an over-long line is excused when it holds exactly one word (token, or token glued to the '
                'opening delimiter, or the closing delimiter); line 1 is limited by line_len, later lines '
                'by max_line_len')
